@@ -66,6 +66,8 @@ POOL_B = [
     ("256", "int"), ("65536", "int"), ("(0-65536)", "int"),
     ("(18446744073709551616-18446744073709551616)", "int"),      # 0 held in big-integer representation
     ("(18446744073709551616-18446744073709551611)", "int"),      # 5 held in big-integer representation
+    ("(18446744073709551616-18446744073709551617)", "int"), ("(18446744073709551617-18446744073709551616)", "int"),   # -1 and 1 in big representation
+    ("(18446744073709551618-18446744073709551616)", "int"),      # 2 in big representation
     ("0.0", "float"), ("1.5", "float"), ("(0.0-2.5)", "float"), ("(0.0/0.0)", "nan"), ("(1.0/0.0)", "inf"), ("(0.0-1.0/0.0)", "inf"),
     ("(1/2)", "rational"), ("(0-7/3)", "rational"), ("((1/2)-(1/2))", "rational"),       # the last one: a rational zero
     ("(1+2i)", "complex"), ("(0.0*1i)", "complex"),
@@ -85,11 +87,17 @@ POOL_B = [
 INF_FUEL = ("(iota(0) lazy_map \\x -> x)", "infstream")
 INF_NATIVE = [("iota(0)", "infstream"), ("repeat(1)", "infstream"), ("cycle([1,2])", "infstream")]
 # huge stratum: magnitudes >= 2^31
+# i64::MAX, i64::MIN and i64::MIN+1 both as machine words (NInt::Small) and in big representation
 POOL_H = [
     ("2147483648", "huge"), ("4294967296", "huge"), ("9223372036854775807", "huge"), ("(0-9223372036854775807-1)", "huge"),
+    ("(0-9223372036854775807)", "huge"),
+    ("(18446744073709551616-9223372036854775809)", "huge"), ("(0-9223372036854775808)", "huge"), ("(9223372036854775809-18446744073709551616)", "huge"),
     ("9223372036854775808", "huge"), ("18446744073709551616", "huge"), ("(0-18446744073709551616)", "huge"),
     ("1e300", "hugefloat"),
 ]
+# small special integers, both representations: every (huge, special) and (special, huge) pair is run for every function
+SPECIAL_SRC = ["(0-1)", "0", "1", "2", "(18446744073709551616-18446744073709551617)", "(18446744073709551616-18446744073709551616)",
+               "(18446744073709551617-18446744073709551616)", "(18446744073709551618-18446744073709551616)"]
 POOL = POOL_B + [INF_FUEL] + POOL_H + INF_NATIVE
 SRC = [s for s, _ in POOL]
 TAG = [t for _, t in POOL]
@@ -99,6 +107,9 @@ IDX_BI = IDX_B + [IDX_INF]                      # bounded stratum incl. the fuel
 IDX_H = list(range(len(POOL_B) + 1, len(POOL_B) + 1 + len(POOL_H)))
 IDX_NAT = list(range(len(POOL_B) + 1 + len(POOL_H), len(POOL)))
 HUGE = set(IDX_H)
+IDX_SPECIAL = [SRC.index(x) for x in SPECIAL_SRC]
+HUGE_POSITIVE = {SRC.index(x) for x in ("2147483648", "4294967296", "9223372036854775807", "(18446744073709551616-9223372036854775809)",
+                                        "9223372036854775808", "18446744073709551616", "1e300")}
 INFS = set([IDX_INF] + IDX_NAT)
 
 FUEL = 20_000
@@ -335,6 +346,10 @@ def build_cases(ctx, sw, fns):
         # probe of which calls consume the fuel-burning infinite stream
         probe3 = [[ctx.rng.choice(IDX_B) for _ in range(3)] for _ in range(60)] if quick else []
         cases.append(sw.case(fn, tuples=small + probe3 + inf_probe_tuples(ctx), detail=True))
+        # boundary words against the small special integers, both orders, both representations: exhaustive in every tier.
+        # Functions outside the huge-count class must answer all of them; members get a budget of no-answers.
+        special = [[h, k] for h in IDX_H for k in IDX_SPECIAL] + [[k, h] for h in IDX_H for k in IDX_SPECIAL]
+        cases.append(sw.case(fn, tuples=special, limit_ms=hlimit, budget=(40 if fn in HUGE_COUNT_FNS and quick else None)))
         if quick:
             huge = [[i] for i in IDX_H] + huge_tuples(2, ctx.rng, 120) + huge_tuples(3, ctx.rng, 40)
             # quick tier: at most 10 calls per function may hang / bomb; the rest of its huge tuples are skipped (counted)
@@ -393,6 +408,8 @@ def classify(f):
     t, st = f["t"], f["status"]
     has_inf = any(i in INFS for i in t)
     has_huge = any(i in HUGE for i in t)
+    # a count/width/shift/exponent of magnitude >= 2^31 given to a member function; only capacity-overflow panics,
+    # refused allocations and no-answers are the known class - any other panic (arithmetic overflow, ...) is a violation
     member = has_huge and f["fn"] in HUGE_COUNT_FNS
     if st == "panic":
         if member and "capacity overflow" in f["msg"]:
@@ -823,6 +840,15 @@ RAW_FAULTS = [
     ("x0 = \"\\u{d7ff}\" to \"\\u{e000}\"", {0}), ("x0 = \"\\u{d7ff}\" til \"\\u{e000}\"", {0}), ("x0 = \"\\u{0}\" to \"\\u{10ffff}\" then len", {0}),
     ("x0 = repeat(7)[(0-9223372036854775807-1):]", {0}), ("x0 = repeat(7)[:(0-9223372036854775807-1)]", {0}), ("x0 = repeat(7)[(0-9223372036854775807-1):(0-1)]", {0}),
     ("x0 = cycle([1,2])[(0-9223372036854775807-1):]", {0}), ("x0 = (1 to 3)[(0-9223372036854775807-1):9223372036854775807]", {0}),
+    # i64::MIN as a machine word against -1: every operator whose machine result does not fit
+    ("x0 = (0-9223372036854775807-1) // (0-1)", {0}), ("x0 = (0-9223372036854775807-1) % (0-1)", {0}), ("x0 = (0-9223372036854775807-1) %% (0-1)", {0}),
+    ("x0 = (0-9223372036854775807-1) /! (0-1)", {0}), ("x0 = 0 - (0-9223372036854775807-1)", {0}), ("x0 = -(0-9223372036854775807-1)", {0}),
+    ("x0 = abs(0-9223372036854775807-1)", {0}), ("x0 = (0-9223372036854775807-1) * (0-1)", {0}), ("x0 = (0-1) * (0-9223372036854775807-1)", {0}),
+    ("x0 = (0-9223372036854775807-1) / (0-1)", {0}), ("x0 = (0-9223372036854775807-1) - 1", {0}), ("x0 = 9223372036854775807 + 1", {0}),
+    ("x0 = gcd(0-9223372036854775807-1, 0-1)", {0}), ("x0 = lcm(0-9223372036854775807-1, 0-1)", {0}), ("x0 = (0-9223372036854775807-1) ^ 2", {0}),
+    ("x0 = signum(0-9223372036854775807-1)", {0}), ("x1 = (0-9223372036854775807-1); x1 %= (0-1)", {1}), ("x1 = (0-9223372036854775807-1); x1 //= (0-1)", {1}),
+    ("x0 = [0-9223372036854775807-1] map (% (0-1))", {0}), ("x0 = V(0-9223372036854775807-1) % (0-1)", {0}), ("x0 = sum([9223372036854775807, 1])", {0}),
+    ("x0 = product([0-9223372036854775807-1, 0-1])", {0}), ("x0 = (0-9223372036854775807-1) til (0-9223372036854775807) then len", {0}),
     ("x0 %= 0", {0}), ("x0 %%= 0", {0}), ("x0 /= 0", {0}), ("x0 gcd= null", {0}), ("x0 til= null", {0}), ("x0 by= 0", {0}), ("x0 = 1 to null", {0}),
 ]
 
